@@ -28,6 +28,8 @@ def build_wf(spec: dict):
     if k == "kaiser":
         return wf.KaiserWaveform(spec["d"], spec["area"], spec.get("beta", 14.0))
     if k == "interp":
+        if "interp1d_kind" in spec:
+            return wf.InterpolatedWaveform(spec["d"], spec["values"], interpolator="interp1d", kind=spec["interp1d_kind"])
         return wf.InterpolatedWaveform(spec["d"], spec["values"])
     if k == "custom":
         return wf.CustomWaveform(spec["samples"])
